@@ -41,19 +41,43 @@ def where_key_spec(left: List[int], right: List[int], tag: int) -> bool:
     return got == want
 
 
-def where_rejects_unsorted(left: List[int], right: List[int]) -> bool:
-    """
-    Unsorted / non-unique input is rejected when the generator is exhausted.
-
-    pre: len(left) <= 3 and len(right) <= 3
-    pre: not (_sorted_unique(left) and _sorted_unique(right))
-    post: _
-    """
+def _rejects(left, right):
+    if _sorted_unique(left) and _sorted_unique(right):
+        return True  # not the subject of this cell
     try:
         _classify(left, right)
     except ValueError:
         return True
     return False
+
+
+def rejects_31(a: int, b: int, c: int, d: int, nl: int, nr: int) -> bool:
+    """
+    Unsorted / non-unique input (left up to 3 elements, right up to 1) is rejected when the generator is exhausted.
+
+    pre: 0 <= nl <= 3 and 0 <= nr <= 1
+    pre: 0 <= a <= 3 and 0 <= b <= 3 and 0 <= c <= 3 and 0 <= d <= 3
+    post: _
+    """
+    return _rejects([a, b, c][:nl], [d][:nr])
+
+
+def rejects_13(a: int, b: int, c: int, d: int, nl: int, nr: int) -> bool:
+    """
+    pre: 0 <= nl <= 1 and 0 <= nr <= 3
+    pre: 0 <= a <= 3 and 0 <= b <= 3 and 0 <= c <= 3 and 0 <= d <= 3
+    post: _
+    """
+    return _rejects([d][:nl], [a, b, c][:nr])
+
+
+def rejects_22(a: int, b: int, c: int, d: int, nl: int, nr: int) -> bool:
+    """
+    pre: 0 <= nl <= 2 and 0 <= nr <= 2
+    pre: 0 <= a <= 3 and 0 <= b <= 3 and 0 <= c <= 3 and 0 <= d <= 3
+    post: _
+    """
+    return _rejects([a, b][:nl], [c, d][:nr])
 
 
 def merge_spec(left: List[int], right: List[int]) -> bool:
